@@ -419,6 +419,87 @@ pub fn build(caps: &[&str], flow: &str, variant: &str, nesting: usize) -> Option
     Some(Program::single(cx.items, cx.n.names.clone()))
 }
 
+/// closures created inside a generic function that is instantiated at two types: what the closure
+/// captures (nothing / only values whose types do not mention T / a value of type T) x how its body
+/// depends on T (a statically dispatched trait call, the result type, a call of another generic)
+fn generic_instance_programs() -> Vec<(String, String, String)> {
+    let head = "trait Show { fn show(Self) -> string; }\nimpl Show for int32 { fn show(self: int32) -> string { \"i\" + int32_to_string(self) } }\nimpl Show for bool { fn show(self: bool) -> string { \"b\" + bool_to_string(self) } }\nimpl Show for string { fn show(self: string) -> string { \"s\" + self } }\nfn idg[U](u: U) -> U { u }\n";
+    let captures = [("none", "", ""), ("string-only", "let prefix = \"p=\";\n    ", "prefix + "), ("int-and-string", "let prefix = \"p=\";\n    let k = 3;\n    ", "prefix + int32_to_string(k) + "), ("value-of-T", "let held = x;\n    ", "Show::show(held) + ")];
+    let bodies = [("trait-call-path", "Show::show(y)"), ("trait-call-dot", "y.show()"), ("trait-call-then-concat", "Show::show(y) + \"!\""), ("pair-result", "Show::show(y) + Show::show(y)")];
+    let binders = [("let-bound", true), ("anonymous-argument", false)];
+    let mut out = Vec::new();
+    for (cn, pre, lead) in captures {
+        for (bn, body) in bodies {
+            for (bind_name, let_bound) in binders {
+                let generic = if let_bound {
+                    format!("fn render[T: Show](x: T) -> string {{\n    {}let fmt = |y: T| {}{};\n    fmt(x)\n}}\n", pre, lead, body)
+                } else {
+                    format!("fn ap[A](f: (A) -> string, a: A) -> string {{ f(a) }}\nfn render[T: Show](x: T) -> string {{\n    {}let fmt = |y: T| {}{};\n    let again = |y: T| \"2\" + {}{};\n    fmt(x) + again(x)\n}}\n", pre, lead, body, lead, body)
+                };
+                let text = format!("{}{}fn main() {{\n    string_println(render(7));\n    string_println(render(true));\n    string_println(render(\"z\"));\n    string_println(render(8))\n}}\n", head, generic);
+                let one = |shown: &str| -> String {
+                    let lead_s = match cn {
+                        "none" => String::new(),
+                        "string-only" => "p=".to_string(),
+                        "int-and-string" => "p=3".to_string(),
+                        _ => shown.to_string(),
+                    };
+                    let body_s = if bn == "pair-result" { format!("{}{}", shown, shown) } else if bn == "trait-call-then-concat" { format!("{}!", shown) } else { shown.to_string() };
+                    if let_bound { format!("{}{}", lead_s, body_s) } else { format!("{}{}2{}{}", lead_s, body_s, lead_s, body_s) }
+                };
+                let expected = format!("{}\n{}\n{}\n{}\n", one("i7"), one("btrue"), one("sz"), one("i8"));
+                out.push((format!("captures={};body={};closure={}", cn, bn, bind_name), text, expected));
+            }
+        }
+    }
+    out
+}
+
+/// functions that return closures: where the function stands relative to its caller (before it, after
+/// it, in another file of the package, in an imported package), whether it is generic, how the result is
+/// used. (name, text, expected stdout)
+fn returning_programs() -> Vec<(String, String, String)> {
+    let makers: [(&str, &str, &str); 3] = [
+        ("plain", "fn mk(n: int32) -> (int32) -> int32 { |x: int32| x + n }\n", "mk(3)"),
+        ("generic", "fn mkg[T](v: T, n: int32) -> (int32) -> int32 { |x: int32| x + n }\n", "mkg(\"s\", 3)"),
+        ("through-a-second-function", "fn inner(n: int32) -> (int32) -> int32 { |x: int32| x + n }\nfn mk(n: int32) -> (int32) -> int32 { inner(n + 1) }\n", "mk(2)"),
+    ];
+    // every use prints (4 + 3) = 7 first
+    let uses: [(&str, &str, &str); 6] = [
+        ("let-then-call", "    let a = MK;\n    string_println(int32_to_string(a(4)));\n", "7\n"),
+        ("called-directly", "    string_println(int32_to_string(MK(4)));\n", "7\n"),
+        ("two-results", "    let a = MK;\n    let b = MK;\n    string_println(int32_to_string(a(4) + b(10)));\n", "20\n"),
+        ("inside-a-closure", "    let h = |z: int32| { let a = MK; a(z) };\n    string_println(int32_to_string(h(4)));\n", "7\n"),
+        ("tuple-element", "    let t = (MK, 1);\n    string_println(int32_to_string(t.0(4) + t.1));\n", "8\n"),
+        ("called-in-a-loop", "    let i = ref(0);\n    while ref_get(i) < 2 {\n        let a = MK;\n        string_println(int32_to_string(a(ref_get(i))));\n        ref_set(i, ref_get(i) + 1);\n    };\n", "3\n4\n"),
+    ];
+    let mut out = Vec::new();
+    for (mn, maker, mk_call) in makers {
+        for (un, body, expected) in uses {
+            for place in ["before-the-caller", "after-the-caller", "other-file-of-the-package", "imported-package"] {
+                let body = body.replace("MK", &if place == "imported-package" { format!("Lib::{}", mk_call) } else { mk_call.to_string() });
+                let main = format!("fn main() {{\n{}}}\n", body);
+                let text = match place {
+                    "before-the-caller" => format!("{}{}", maker, main),
+                    "after-the-caller" => format!("{}{}", main, maker),
+                    "other-file-of-the-package" => format!("package Main\n\n{}//// FILE makers.gom\npackage Main\n\n{}", main, maker),
+                    _ => format!("package Main\n\nimport Lib\n\n{}//// FILE Lib/lib.gom\npackage Lib\n\n{}", main, maker),
+                };
+                out.push((format!("function={};use={};placed={}", mn, un, place), text, expected.to_string()));
+            }
+        }
+    }
+    // a closure that returns a closure
+    for (un, body, expected) in [
+        ("let-then-call", "    let f = |a: int32| { let g = |b: int32| b + a; g };\n    let g1 = f(10);\n    string_println(int32_to_string(g1(100)));\n", "110\n"),
+        ("called-directly", "    let f = |a: int32| { let g = |b: int32| b + a; g };\n    string_println(int32_to_string(f(10)(100)));\n", "110\n"),
+        ("anonymous-inner", "    let f = |a: int32| |b: int32| b + a;\n    let g1 = f(10);\n    string_println(int32_to_string(g1(100)));\n", "110\n"),
+    ] {
+        out.push((format!("function=closure-returning-a-closure;use={};placed=local", un), format!("fn main() {{\n{}}}\n", body), expected.to_string()));
+    }
+    out
+}
+
 pub struct Closures;
 
 fn capture_sets(tier: Tier) -> Vec<Vec<&'static str>> {
@@ -448,10 +529,16 @@ impl Family for Closures {
         &["C08", "C01", "C02", "C03", "C04"]
     }
     fn rule(&self) -> &'static str {
-        "capture sets (all singles over {none, fn param, let, pattern variable, Ref cell, another closure, top-level fn, string let, function-typed parameter called in callee position only, local alias of a top-level fn called in callee position only}; selected pairs in quick, all pairs in thorough) x 27 flows of the closure value from creation to call (returned by a function directly, in a tuple, in a tuple nested two and three deep and in either position, in a tuple that a second function wraps in another; let, rebind, tuple element, nested tuple literal / tuple of a tuple-typed variable / tuple of a call result, struct field in first / second / third position, array element, Ref content, Vec element, returned from fn, returned from closure, argument, argument called twice, branch result of if/match, generic apply, …) x variants {plain, captured name shadowed after creation, captured Ref mutated from both sides, called twice} x nesting depth 1 (thorough: 1-2). non-trivial = programs whose closure captures at least one variable; distinct = distinct source text"
+        "capture sets (all singles over {none, fn param, let, pattern variable, Ref cell, another closure, top-level fn, string let, function-typed parameter called in callee position only, local alias of a top-level fn called in callee position only}; selected pairs in quick, all pairs in thorough) x 27 flows of the closure value from creation to call (returned by a function directly, in a tuple, in a tuple nested two and three deep and in either position, in a tuple that a second function wraps in another; let, rebind, tuple element, nested tuple literal / tuple of a tuple-typed variable / tuple of a call result, struct field in first / second / third position, array element, Ref content, Vec element, returned from fn, returned from closure, argument, argument called twice, branch result of if/match, generic apply, …) x variants {plain, captured name shadowed after creation, captured Ref mutated from both sides, called twice} x nesting depth 1 (thorough: 1-2). plus 32 programs with closures inside a generic function instantiated at three types (captures: none / values whose types do not mention T / a value of type T; body: a trait call on the parameter in path or dot form, followed by a concatenation, used twice; one let-bound closure or two closures in one function). plus functions that return a closure: 3 functions (plain, generic, returning the result of a second such function) x 6 uses of the result (bound then called, called directly 'mk(3)(4)', two results, inside another closure, as a tuple element, in a loop) x 4 places of the function (before its caller, after it, in another file of the package, in an imported package), and 3 programs with a closure that returns a closure. non-trivial = programs whose closure captures at least one variable; distinct = distinct source text"
     }
     fn cases(&self, tier: Tier) -> Box<dyn Iterator<Item = Value> + '_> {
         let mut v = Vec::new();
+        for (i, _) in generic_instance_programs().iter().enumerate() {
+            v.push(json!({"generic-instances": i}));
+        }
+        for (i, _) in returning_programs().iter().enumerate() {
+            v.push(json!({"closure-returning": i}));
+        }
         let nestings: Vec<usize> = if tier == Tier::Quick { vec![1] } else { vec![1, 2] };
         for caps in capture_sets(tier) {
             for flow in FLOWS {
@@ -466,6 +553,59 @@ impl Family for Closures {
     }
     fn run(&self, case: &Value, ctx: &mut Ctx) -> Report {
         let mut rep = Report::default();
+        let text_program = if let Some(i) = case["generic-instances"].as_u64() {
+            let (name, text, expected) = generic_instance_programs()[i as usize].clone();
+            Some((format!("generic-instances;{}", name), text, expected))
+        } else if let Some(i) = case["closure-returning"].as_u64() {
+            let (name, text, expected) = returning_programs()[i as usize].clone();
+            Some((format!("closure-returning;{}", name), text, expected))
+        } else {
+            None
+        };
+        if let Some((site, text, expected)) = text_program {
+            rep.nontrivial_key = Some(text.clone());
+            let replay = json!({"kind": "differential", "family": "closures", "case": case, "source": text, "expected": {"stdout": expected, "end": "ok"}});
+            let (path, text) = materialize_text(ctx, &text);
+            let comp = match crate::oracle::compile_at(&path, &text) {
+                crate::oracle::CompileOutcome::Ok(c) => c,
+                crate::oracle::CompileOutcome::Panic(m) => {
+                    let m = normalise_msg(&m);
+                    for p in ["C08", "C04"] {
+                        rep.findings.push(Finding { property: p, class: "compile.panic".into(), site: format!("{};msg={}", site, m), detail: m.clone(), replay: replay.clone() });
+                    }
+                    return rep;
+                }
+                crate::oracle::CompileOutcome::Err(e) => {
+                    let (stage, msg) = describe_err(&e);
+                    rep.tag(format!("compile:rejected:{}", stage));
+                    rep.findings.push(Finding { property: "C08", class: format!("compile.rejected.{}", stage), site: format!("{};msg={}", site, normalise_msg(&msg)), detail: msg, replay });
+                    return rep;
+                }
+            };
+            rep.tag("compile:ok");
+            for (stage, msg) in crate::irck::check_all(&comp) {
+                rep.findings.push(Finding { property: "C03", class: format!("irck.{}", stage), site: format!("{};msg={}", site, normalise_msg(&msg)), detail: msg, replay: replay.clone() });
+            }
+            let go = crate::oracle::go_text(&comp).unwrap_or_default();
+            drop(comp);
+            match crate::projects::run_go(&go, FUEL) {
+                Ok(o) if lossy(&o.stdout) == expected && o.end == crate::oracle::NEnd::Ok => rep.tag("agree"),
+                Ok(o) => {
+                    rep.tag("disagree");
+                    for p in ["C08", "C01"] {
+                        rep.findings.push(Finding { property: p, class: "sem.stdout".into(), site: site.clone(), detail: format!("expected {:?} got {:?}/{}", expected, lossy(&o.stdout), end_tag(&o.end)), replay: replay.clone() });
+                    }
+                }
+                Err(m) if m.starts_with("machinery") => rep.tag("machinery:go-unsupported"),
+                Err(m) => {
+                    rep.tag("go:rejected");
+                    for p in ["C08", "C02"] {
+                        rep.findings.push(Finding { property: p, class: m.split(':').next().unwrap_or("go.invalid").to_string(), site: format!("{};goerr={}", site, normalise_msg(&m)), detail: m.clone(), replay: replay.clone() });
+                    }
+                }
+            }
+            return rep;
+        }
         let caps: Vec<&str> = case["captures"].as_array().unwrap().iter().map(|x| x.as_str().unwrap()).collect();
         let (flow, variant) = (case["flow"].as_str().unwrap(), case["variant"].as_str().unwrap());
         let nesting = case["nesting"].as_u64().unwrap() as usize;
